@@ -263,7 +263,10 @@ def list_method(eng, l, name, args, kw, line):
                 eng.partial(n > idx, 'IndexError', line)
                 v = eng.list_get(l, z3.IntVal(idx))
                 j = z3.Const('j!pop', I)
-                row = eng.def_array([j], z3.If(j >= idx, da[l.ref][j + 1], da[l.ref][j]))
+                # only the cells of the new list are defined (guarded quantifier: the finite counter-model search can expand it)
+                row = eng.run.fresh('popped', da[l.ref].sort())
+                eng.run.assume(z3.ForAll([j], z3.Implies(z3.And(0 <= j, j < n - 1),
+                                                         row[j] == z3.If(j >= idx, da[l.ref][j + 1], da[l.ref][j]))), silent=True)
                 eng.heap.set(nm, z3.Store(da, l.ref, row))
                 eng.heap.set('L.len', z3.Store(ln, l.ref, n - 1))
                 return v
